@@ -737,7 +737,8 @@ def unIsIdTy (g : GWorld) : Nat → Option Ty → Bool
   | _ + 1, none => false
   | n + 1, some t =>
     match t with
-    | .int | .float | .str | .bytes | .bool | .lit _ => true
+    | .int | .float | .str | .bytes | .bool => true
+    | .lit vs => !litHasEnum vs      -- (a literal containing enum members is unstructured by `self.unstructure`)
     | .wrap _ t' => unIsIdTy g n (some t')
     | .td c => (match g.classes[c]? with
         | some k => tdUnIsIdentity (unIsIdTy g n) k.hc k.attrs
